@@ -294,6 +294,20 @@ def index_carriers(ctx, sp):
                     if A.wsearch(init, "parse_field_impl(&pred,state.fields.len(),iter.clone(),%s," % tags[fld]) and re.search(r"\)\?\.map\(\|\((\w+),_,_\)\|\1\)$", init):
                         carriers[("ParsedFields", fld)] = space
     if len(carriers) != 2:
+        # third accepted form: a struct literal `ParsedFields { source: sel.map(|(index, _, _)| index), .. }`
+        lit = next((x for x, _ in A.find(fn.block, "Expr::Struct") if A.path_last(x["path"]) == "ParsedFields"), None)
+        if lit is not None:
+            for fv in lit["fields"]:
+                nm = fv["member"]["0"]["sym"] if A.kind(fv["member"]) == "Member::Named" else None
+                if nm not in ("source", "backtrace"):
+                    continue
+                m_ = re.fullmatch(r"(\w+)\.map\(\|\((\w+),_,_\)\|\2\)", A.render(fv["expr"]))
+                if not m_:
+                    continue
+                inits = [A.render(st_["init"]["expr"]) for st_, _ in A.find(fn.block, "Stmt::Local") if st_.get("init") and A.pat_idents(st_["pat"]) == [m_.group(1)]]
+                if inits and all(re.search(r"parse_field_impl\(&\w+,state\.fields\.len\(\),\w+(?:\.clone\(\))?,%s," % re.escape(tags[nm]), i_) for i_ in inits):
+                    carriers[("ParsedFields", nm)] = space
+    if len(carriers) != 2:
         raise A.AnchorLost(f"{rel}::parse_fields_impl", "assignments of source/backtrace from the enumerate index")
     return carriers
 
